@@ -11,7 +11,7 @@ import itertools
 from ..affine import Aff
 from ..core import AnalysisError, src
 from ..geom import GEOM, GRID, A, GeoInterp, Geometry, IndexMap, P
-from ..guards import walk_function
+from ..guards import show, strip_iter, walk_function
 from ..index import RepoIndex
 
 EXPLANATION = (
@@ -373,6 +373,7 @@ def run(index: RepoIndex, rep) -> None:
                       f'rotation by {g.rot[(a, b)]} shows [{mc.r}][{mc.c}]',
                       f'compose {a},{b}')
     gm = index.func(GRID, 'Grid.__mul__')
+    mul_returns_operand(index, rep, 'C18.R6')
     gi.opaque = set(g.grid_rot_name.values())    # rotation functions stay symbolic here
     me, other = [a.arg for a in gm.node.args.args[:2]]
     for o in O:
@@ -394,6 +395,25 @@ def run(index: RepoIndex, rep) -> None:
     # ---- R7 get_next_position (denotation for all headings x actions)
     from .c08 import _next_position
     _next_position(index, rep, g)
+
+
+def mul_returns_operand(index: RepoIndex, rep, rule: str) -> None:
+    """no path of Grid.__mul__ hands back the operand: a grid that "looks the same from every
+    side" (one object type) still has colours, statuses and -- when it is not square -- another
+    shape after a quarter turn"""
+    gm = index.func(GRID, 'Grid.__mul__')
+    wgm = walk_function(gm.node)
+    n = 0
+    for e_ in wgm.events:
+        if e_.kind == 'return' and e_.value is not None:
+            n += 1
+            if src(wgm.expand(e_.value)) == gm.node.args.args[0].arg:
+                rep.violation(rule, GRID, 'Grid.__mul__', e_.line, src(e_.stmt),
+                              f'Grid.__mul__ returns the grid itself when '
+                              f'`{show(strip_iter(e_.guard))[:100]}`: the result is not rotated '
+                              f'(a quarter turn of a non-square grid has another shape) and '
+                              f'shares its cells with the operand')
+    rep.holds(rule, f'{GRID}:Grid.__mul__:returns', f'{n} returns, none of them the operand')
 
 
 def purity(index: RepoIndex, rep) -> None:
